@@ -112,7 +112,9 @@ BR = {"line": (("from_bus", "from"), ("to_bus", "to")), "trafo": (("hv_bus", "hv
 
 def phase_sums(net):
     """per fused node and phase: complex consumption of bus elements (from res_*_3ph) and complex branch outflow.
-    Returns acc[node] = dict(elem=[3 complex], branch=[3 complex], buses=set, delta=bool), perbus[bus] = [3 complex]"""
+    Returns acc[node] = dict(elem=[3 complex], branch=[3 complex], buses=set, delta=bool), perbus[bus] = [3 complex].
+    delta: an in-service delta-connected element sits at the node - its table reports line-to-line branch powers (a symmetric
+    delta load is booked with total/3 per phase), which equal the phase-to-earth powers only for balanced voltages."""
     node = fused_nodes(net)
     acc = {}
     perbus = {int(b): [0j, 0j, 0j] for b in net.bus.index}
@@ -120,7 +122,7 @@ def phase_sums(net):
     def slot(b):
         n = node[int(b)]
         if n not in acc:
-            acc[n] = {"elem": [0j, 0j, 0j], "branch": [0j, 0j, 0j], "buses": set(), "delta_asym": False, "kinds": set()}
+            acc[n] = {"elem": [0j, 0j, 0j], "branch": [0j, 0j, 0j], "buses": set(), "delta": False, "kinds": set()}
         acc[n]["buses"].add(int(b))
         return acc[n]
     for b in net.bus.index:
@@ -137,6 +139,8 @@ def phase_sums(net):
             s = sign * complex(p, q) / 3.
             sl = slot(b)
             sl["kinds"].add(tab)
+            if net[tab].at[i, "type"] == "delta" and bool(net[tab].at[i, "in_service"]):
+                sl["delta"] = True
             for k in range(3):
                 sl["elem"][k] += s
                 perbus[b][k] += s
@@ -149,7 +153,7 @@ def phase_sums(net):
             sl = slot(b)
             sl["kinds"].add(tab)
             if net[tab].at[i, "type"] == "delta" and bool(net[tab].at[i, "in_service"]):
-                sl["delta_asym"] = True
+                sl["delta"] = True
             for k, ph in enumerate(PH):
                 p, q = float(r.at[i, "p_%s_mw" % ph]), float(r.at[i, "q_%s_mvar" % ph])
                 if np.isfinite(p) and np.isfinite(q):
